@@ -4211,8 +4211,8 @@ def fw2_rnd1_ord1(proj, rep, which, modules=None):
     return n
 
 
-RULE_UV1 = ('UV1: a local name bound to a computed value is read somewhere in its function. A value that is computed, named and never used is a stated intention the code does '
-            'not follow (the decay amplitude `tmp1 = sqrt(rate)` that no Kraus operator contains). Reviewed exceptions are frozen by (function, name).')
+RULE_UV1 = ('UV1: a local name bound to a computed value and never read, next to a sibling binding that occurs twice or more in one later statement, marks a substitution: the '
+            'stated intention (the decay amplitude `tmp1 = sqrt(rate)`) is not followed and its neighbour `tmp0` stands in both places. A merely unused name gives no verdict.')
 UV1_REVIEWED = {
     ('numqi.entangle._misc.check_reduction_witness', 'N0'): 'size read once for documentation; the reshape uses dim',
     ('numqi.entangle.pureb_quantum.mps_to_dicke', 'num_qudit'): 'left over from an assert that was removed',
@@ -4239,9 +4239,31 @@ def uv1(proj, rep, modules=None):
                 if (fi.qual, nm) in UV1_REVIEWED:
                     rep.ok('UV1', fi.qual, f'`{nm}` unused (reviewed: {UV1_REVIEWED[(fi.qual, nm)]})', m, s, text=f'reviewed unused {nm}')
                     continue
+                # an unused binding alone changes nothing; it is reported only with positive evidence of a substitution: a sibling bound next to it (same block, at most two
+                # statements away) occurs twice or more in one later statement - the place where the unused name was meant to stand
+                blk = next((b for x in ast.walk(fn) for f_ in ('body', 'orelse', 'finalbody') for b in [getattr(x, f_, None)] if isinstance(b, list) and s in b), None)
+                sib = None
+                if blk is not None:
+                    k0 = blk.index(s)
+                    for t in blk[max(0, k0 - 2):k0 + 3]:
+                        if t is s or not (isinstance(t, ast.Assign) and len(t.targets) == 1 and isinstance(t.targets[0], ast.Name)):
+                            continue
+                        sn = t.targets[0].id
+                        for later in blk[k0 + 1:]:
+                            if later is t:
+                                continue
+                            cnt = sum(1 for x in ast.walk(later) if isinstance(x, ast.Name) and x.id == sn and isinstance(x.ctx, ast.Load))
+                            if cnt >= 2:
+                                sib = (sn, later)
+                                break
+                        if sib:
+                            break
+                if sib is None:
+                    rep.ok('UV1', fi.qual, f'`{nm}` is never read; no sibling stands in its place (no verdict on a merely unused name)', m, s, text=f'unused {nm} without substitution')
+                    continue
                 rep.touch(m)
-                rep.violation('UV1', fi.qual, f'`{ast.unparse(s)[:70]}` is computed and named but `{nm}` is never read in {fi.qual.rsplit(".", 1)[-1]}: the expression that was meant '
-                              f'to contain it uses something else', m, s)
+                rep.violation('UV1', fi.qual, f'`{ast.unparse(s)[:60]}` is computed and named but `{nm}` is never read, while its neighbour `{sib[0]}` occurs more than once in '
+                              f'`{ast.unparse(sib[1])[:60]}`: one of those occurrences was meant to be `{nm}`', m, s)
     rep.count('UV1.local_bindings', n)
     if n:
         mm = proj.mod('numqi.utils')
